@@ -78,18 +78,18 @@ def gen_text(rng):
 
 def gen_dict(rng, name, style):
     """rows: list of (text, [syllables], weight string).  style: script | table | wide"""
-    if style == "wide":                    # many keys with a common prefix: the fetch-more protocol of LazyTableTranslation
-        letters = "abcd"
-        base = rng.choice(letters)
-        syl = sorted({base} | {base + "".join(t) for l in (1, 2) for t in itertools.product(letters, repeat=l)
-                               if rng.random() < .75} | {rng.choice(letters) + rng.choice(letters)})
+    if style in ("wide", "huge"):          # many keys with a common prefix: the fetch-more protocol of LazyTableTranslation
+        letters, maxl, keep = ("abc", 3, .85) if style == "wide" else ("abcde", 4, .9)   # limit 10 -> 100 (-> 1000 for huge)
+        syl = sorted({"".join(t) for l in range(1, maxl + 1) for t in itertools.product(letters, repeat=l)
+                      if rng.random() < keep})
     else:
         letters = rng.choice(["ab", "abc", "abc"])
         syl = gen_syllables(rng, letters, rng.randint(3, 8))
     rows = []
     texts = [gen_text(rng) for _ in range(rng.choice([2, 3, 3, 5, 8, 10]))]      # small pools: the same text under many codes
-    nrows = rng.randint(6, 40) if style != "wide" else rng.randint(len(syl), 3 * len(syl))
-    maxlen = {"script": 6, "table": 3, "wide": 1}[style]
+    wide = style in ("wide", "huge")
+    nrows = rng.randint(6, 40) if not wide else rng.randint(len(syl), 2 * len(syl))
+    maxlen = {"script": 6, "table": 3, "wide": 1, "huge": 1}[style]
     seen = set()
     # some heavy code prefixes so that the 3-level index and the tail page are populated
     heavy = [rng.choice(syl) for _ in range(3)]
@@ -111,10 +111,14 @@ def gen_dict(rng, name, style):
             continue                        # an exact duplicate row (text, code) is C06's business
         seen.add((text, tuple(code)))
         rows.append((text, code, w))
-    if style == "wide":
-        for s in syl:                       # every key has a word
-            if not any(r[1] == [s] for r in rows):
-                rows.append((gen_text(rng), [s], rng.choice(WEIGHTS)))
+    if wide:
+        have = {r[1][0] for r in rows}
+        for s in syl:                       # nearly every key has a word (a key without words exercises "no new entries: stop")
+            if s not in have:
+                if rng.random() < .93:
+                    rows.append((gen_text(rng), [s], rng.choice(WEIGHTS)))
+                else:                       # in the prism, but only as part of a phrase
+                    rows.append((gen_text(rng), [s, s], rng.choice(WEIGHTS)))
     used = sorted({s for r in rows for s in r[1]})
     return dict(name=name, style=style, letters=letters, rows=rows, syllables=used)
 
@@ -181,7 +185,17 @@ def gen_algebra(rng, d):
     for _ in range(rng.choice([1, 1, 2])):
         x = rng.choice(syl)
         r = rng.random()
-        if r < .2 and len(syl) > 1:      # a derived spelling that strictly extends another syllable's name
+        late = sorted({c for _, code, _ in d["rows"] for c in code[3:]})
+        if d["style"] == "script" and late and rng.random() < .5:
+            # a syllable of an EXTRA code (position > 3) gains a longer spelling x+s: match_extra_code then sees two end
+            # positions for one extra code and must keep the farthest
+            x = rng.choice(late)
+            y = x + rng.choice(syl)
+            if x not in used and y not in used:
+                used.update([x, y])
+                rules.append("derive/^%s$/%s/" % (x, y))
+            continue
+        elif r < .2 and len(syl) > 1:    # a derived spelling that strictly extends another syllable's name
             y = rng.choice([s for s in syl if s != x]) + rng.choice(d["letters"])
         elif r < .75 and len(syl) > 1:
             y = rng.choice([s for s in syl if s != x])
@@ -223,6 +237,20 @@ def gen_inputs(rng, d, v, bound, nrandom, maxlen):
     for k, syls in apply_algebra(d["syllables"], v.get("algebra", [])).items():
         for s_ in syls:
             spell.setdefault(s_, []).append(k)
+    # aimed at match_extra_code's "keep the farthest match": a row whose extra code (position > 3) holds a syllable with
+    # two spellings x and x+s, typed with the longer one (both end positions are then in the graph)
+    for rule in v.get("algebra", []):
+        kind, pat, rep = rule.split("/")[:3]
+        x = pat[1:-1]
+        if kind != "derive" or not rep.startswith(x) or rep == x:
+            continue
+        for text, code, w in rows:
+            if x in code[3:] and len(inputs) < 4000:
+                s = "".join(rep if (c == x and i >= 3) else c for i, c in enumerate(code))
+                for cand in (s, s + rng.choice(d["syllables"])):
+                    if cand not in seen and len(cand) <= maxlen + 6:
+                        seen.add(cand)
+                        inputs.append(cand)
     for _ in range(nrandom):
         r = rng.random()
         if r < .55:                      # concatenation of row codes (hits long codes, the tail page, sentences)
@@ -392,13 +420,15 @@ def make_plan(ctx, rng):
         dicts.append(gen_dict(rng, "dt%d" % i, "table"))
     for i in range(nwide):
         dicts.append(gen_dict(rng, "dw%d" % i, "wide"))
+    if not quick:
+        dicts.append(gen_dict(rng, "dh0", "huge"))
     files, schemas = {}, []
     for d in dicts:
         files["%s.dict.yaml" % d["name"]] = dict_yaml(d)
         vs = list(SCRIPT_VARIANTS if d["style"] == "script" else TABLE_VARIANTS)
         if d["style"] == "table":
             vs += SCRIPT_VARIANTS[:2]       # a table-style dictionary under the script translator too
-        if d["style"] != "wide":            # spelling algebra: two syllables may share a spelling, one may have two
+        if d["style"] not in ("wide", "huge"):            # spelling algebra: two syllables may share a spelling, one may have two
             alg = gen_algebra(rng, d)
             if alg and d["style"] == "script":
                 vs += [dict(SCRIPT_VARIANTS[0], algebra=alg), dict(SCRIPT_VARIANTS[1], algebra=gen_algebra(rng, d) or alg)]
@@ -881,38 +911,71 @@ def run(ctx):
         "property_failures_on_impl": len(fails),
         "out_of_domain_inputs": out_of_domain,
     })
-    # --- verdicts
+    # --- verdicts (a failure that matches a known finding does not count as reported: it must not hide a
+    #     correspondence or proof break)
     seen = set()
+    reported = False
     for bk, case, cls, detail in fails:
         d, v = by_id[bk["id"]]
         key = "%s:%s:%s" % (v["kind"], cls, "sentence" if any(c["type"] == "sentence" for c in case["cands"]) else "plain")
         if key in seen:
             continue
         seen.add(key)
-        ctx.violation(key, "%s translator: %s (%s)" % (v["kind"], cls, detail),
+        reported |= ctx.violation(key, "%s translator: %s (%s)" % (v["kind"], cls, detail),
                       {"schema": bk["id"], "variant": v, "input": case["input"].decode("latin-1"), "input_hex": hx(case["input"]),
                        "failure": cls, "detail": detail, "candidates": [cand_key(c) for c in case["cands"]],
                        "dict_yaml": files["%s.dict.yaml" % d["name"]], "schema_yaml": files["%s.schema.yaml" % bk["id"]],
                        "how": "deploy the two files with rime_deployer, create the translator of the schema and query it with the "
                               "input (harness/c07/c07.cc does this); candidate format: type start end text-hex code",
                        "cmd": "VERIF_SEED=%d bin/check C07 %s" % (ctx.seed, ctx.tier)}, found_input=True)
-    if not proof_ok and not fails:
+    if not proof_ok and not reported:
         ctx.violation("proof:Properties_C07", "a proof obligation of Properties_C07.v no longer checks",
                       {"failed": res["failed"], "forbidden": res.get("forbidden"),
                        "log_tail": res["log"][-3000:] + ((res["props"] or {}).get("log", "")[-3000:])}, found_input=False)
-    if mism and not fails:
+    if mism and not reported:
         bk, case, mc, ic = mism[0]
         ctx.violation("correspondence:c07", "model and implementation disagree on the candidate list",
                       {"schema": bk["id"], "input": case["input"].decode("latin-1"), "model": mc, "impl": ic,
                        "mismatches": len(mism), "graph": case["graph"]}, found_input=False)
-    if oracle_bad and not fails:
+    if oracle_bad and not reported:
         bk, case, flags = oracle_bad[0]
         ctx.violation("oracle:poet", "the sentence produced by Poet is not a chain through the model's word graph (or is missing/unexpected)",
                       {"schema": bk["id"], "input": case["input"].decode("latin-1"), "flags": flags,
                        "candidates": [cand_key(c) for c in case["cands"]], "count": len(oracle_bad)}, found_input=False)
 
 
-MUTATION_DRILLS = []
+MUTATION_DRILLS = [
+    # hand-made changes of librime applied in a scratch worktree (/var/tmp/wt-c07, VERIF_REPO/VERIF_CACHE), `bin/check C07 quick`
+    {"mutation": "table.cc Table::Query: do not record an accessor whose edge ends at interpreted_length (drop the last edge)",
+     "compiles": True, "detected": True,
+     "fired": "VIOLATION script:missing-entry:plain, failing input 'b' in schema ds0_v0 (entry spelled by the whole input missing)"},
+    {"mutation": "dictionary.cc lookup_table: skip long entries whose extra code needs more than one further syllable",
+     "compiles": True, "detected": True,
+     "fired": "VIOLATION script:missing-entry:{sentence,plain}, failing inputs 'abbaabbaabbab' (ds0_v0), 'baabaaaaba' (ds1_v4)"},
+    {"mutation": "table_translator.cc TableTranslator::Query: take the LazyTableTranslation branch for 2-letter inputs although "
+                 "enable_completion is false", "compiles": True, "detected": True,
+     "fired": "VIOLATION table:completion-when-disabled:plain, failing input 'ba' in schema dt0_v0"},
+    {"mutation": "dictionary.cc compare_chunk_by_head_element: weight comparison '>' -> '<'", "compiles": True, "detected": True,
+     "fired": "VIOLATION script:weight-order and table:weight-order with failing inputs (plus correspondence mismatches)"},
+    {"mutation": "script_translator.cc ScriptTranslation::Evaluate: swap the iterators of the shortest and the longest end position "
+                 "(shorter matches first / wrong ranges)", "compiles": True, "detected": True,
+     "fired": "VIOLATION script:missing-entry, script:foreign-phrase, script:shorter-before-longer with failing inputs"},
+    {"mutation": "dictionary.cc match_extra_code: keep the NEAREST instead of the farthest successful match", "compiles": True,
+     "detected": True,
+     "fired": "VIOLATION correspondence:c07 no-failing-input-found (input 'babbaabbabaab', schema ds0_v4 with derive/^ba$/baab/): the "
+              "entry is registered at the nearer end; the property's text is not violated, so only the model disagrees.  This "
+              "drill led to two corrections of the check: known-finding hits no longer hide a correspondence break, and the "
+              "generator now aims at extra codes with two end positions"},
+    {"mutation": "translation.cc DistinctTranslation::Next: remember only the first three texts", "compiles": True, "detected": True,
+     "fired": "VIOLATION correspondence:c07 no-failing-input-found (input 'abbabbaabbab', schema ds0_v1): a duplicate text is shown "
+              "again; duplicates are not excluded by the property's text, so only the model disagrees"},
+    {"mutation": "(unfixed tree) table_translator.cc without the Sort() calls of fix 3b72e76", "compiles": True, "detected": True,
+     "fired": "VIOLATION table:weight-order:plain, failing input 'bb' with speller/algebra xform/^b$/bb/ (corpus/C07/unfixed-table-weight-order.json)"},
+    {"mutation": "(unfixed tree) table_translator.cc with the shallow DictEntryIterator copy, before fix f0d9311", "compiles": True,
+     "detected": True,
+     "fired": "VIOLATION table:missing-entry:sentence / table:foreign-table:sentence, failing inputs 'aa', 'aba' with max_homographs: 2 "
+              "(corpus/C07/unfixed-max-homographs-*.json)"},
+]
 
 MANIFEST = {
     "category": "proof",
